@@ -122,3 +122,31 @@ func VerifC10BuiltinKeywords() {
 	verifReach("called")
 	verifAssert(true, "the operation came back (value or error) without a Go panic, for every value of the symbolic operands on this path")
 }
+
+// a misbehaving object (see harness/py/c10_weird.go) as an argument of every builtin function and type constructor
+//
+//verif:property C10
+//verif:timeout 600 3600
+//verif:maxpaths 600000 8000000
+//verif:runinit github.com/go-python/gpython/py.init@type.go:1 github.com/go-python/gpython/py.init@exception.go:1
+//verif:havoc math.Pow math.Mod math/cmplx.Pow math.Exp math.Log math.Sincos math.Sin math.Cos math.Atan2
+//verif:expect called
+func VerifC10BuiltinWeird() {
+	m := c10Builtins()
+	fn := c10Callable(m)
+	w := py.VerifC10Weird()
+	var args py.Tuple
+	switch verifChoice("shape", 4) {
+	case 0:
+		args = py.Tuple{w}
+	case 1:
+		args = py.Tuple{w, py.VerifC10Scalar("arg1")}
+	case 2:
+		args = py.Tuple{py.VerifC10Scalar("arg0"), w}
+	case 3:
+		args = py.Tuple{py.VerifC10Scalar("arg0"), py.VerifC10Scalar("arg1"), w}
+	}
+	_, _ = py.Call(fn, args, nil)
+	verifReach("called")
+	verifAssert(true, "the operation came back (value or error) without a Go panic, for every value of the symbolic operands on this path")
+}
